@@ -22,6 +22,10 @@
     newtxfrom VIN VOUT lock ver WIT|-  CMutableTransaction(<VIN>, <VOUT>, lock, ver[, <WIT>])   ('-': witness=None)
     newtxd ver lock vin vout           CMutableTransaction([fresh…], [fresh…], lock, ver)        (witness=None)
     newin PREV|- script seq            CMutableTxIn(<PREV> | None, script, seq)
+  container kinds (list / tuple / their subclasses / iterators; T2 only):
+    mkseq in|out l|t|L|T T,T,…|-       a list / tuple / list-subclass / tuple-subclass of existing inputs / outputs
+    newctxfrom VIN VOUT lock ver WIT|- g|n   CTransaction(<VIN>, <VOUT>, lock, ver[, <WIT>]); g: iterators are passed
+    setwitc r wit cc                   as setwit; cc ∈ {l,t}² = containers of vtxinwit and of each stack
   T := name('.'childindex)*   name = index of the user step that created the root object.
     c09.specx <history>      like c09.runv, computed on Spec.AliasSem (cells with explicit aliasing)
     c09.xcheck <history>     'same' if heap model and Spec.AliasSem agree on every observation, else 'diff@k'
@@ -120,7 +124,7 @@ def parseOutPoint? (s : String) : Option OutPoint :=
 def parseOptTarget? (s : String) : Option (Option Target) :=
   if s == "-" then some none else (parseTarget? s).map some
 
-def parseOp? (s : String) : Option OpX :=
+def parseOpX? (s : String) : Option OpX :=
   match s.splitOn " " with
   | ["setref", t, k, src] => do
       let t ← parseTarget? t; let k ← parseNat? k; let src ← parseTarget? src; pure (.assignRef t k src)
@@ -167,6 +171,26 @@ def renameOp (tbl : List Nat) : Op → Op
   | .verify r i c => .verify (mapRoot tbl r) i c
   | op => op
 
+def parseTargets? (s : String) : Option (List Target) :=
+  if s == "-" then some [] else (splitList s ',').mapM parseTarget?
+
+/-- container-kind ops: `mkseq in|out l|t|L|T T,T,…|-`, `newctxfrom VIN VOUT lock ver WIT|- [g]`,
+    `setwitc r wit cc` (= setwit; `cc` says which Python containers the harness builds the witness from) -/
+def parseOp? (s : String) : Option OpY :=
+  match s.splitOn " " with
+  | ["mkseq", k, c, items] => do
+      let outs ← (if k == "in" then some false else if k == "out" then some true else none)
+      let isList ← (if c == "l" || c == "L" then some true else if c == "t" || c == "T" then some false else none)
+      let items ← parseTargets? items
+      pure (.mkSeq outs isList items)
+  | ["newctxfrom", vi, vo, lock, ver, w, _] => do
+      let vi ← parseTarget? vi; let vo ← parseTarget? vo; let lock ← parseNat? lock; let ver ← parseInt? ver
+      let w ← parseOptTarget? w
+      pure (.newCTxFrom vi vo lock ver w)
+  | ["setwitc", r, w, _] => do
+      let r ← parseNat? r; let w ← TxFmt.parseWit? w; pure (.x (.base (.setWit r w)))
+  | _ => (parseOpX? s).map .x
+
 def renameOpX (tbl : List Nat) : OpX → OpX
   | .base op => .base (renameOp tbl op)
   | .assignRef t k src => .assignRef (mapT tbl t) k (mapT tbl src)
@@ -176,6 +200,11 @@ def renameOpX (tbl : List Nat) : OpX → OpX
   | .newTxFrom vi vo lock ver w => .newTxFrom (mapT tbl vi) (mapT tbl vo) lock ver (w.map (mapT tbl))
   | .newTxDefault v => .newTxDefault v
   | .newTxInFrom pr sc q => .newTxInFrom (pr.map (mapT tbl)) sc q
+
+def renameOpY (tbl : List Nat) : OpY → OpY
+  | .x op => .x (renameOpX tbl op)
+  | .mkSeq o l items => .mkSeq o l (items.map (mapT tbl))
+  | .newCTxFrom vi vo lock ver w => .newCTxFrom (mapT tbl vi) (mapT tbl vo) lock ver (w.map (mapT tbl))
 
 /-! ### rendering -/
 
@@ -195,7 +224,7 @@ def showOut : Out → String
 
 /-- a machine the driver can run a history on: the heap model or the value store -/
 structure Machine (σ : Type) where
-  step : σ → OpX → σ × Out
+  step : σ → OpY → σ × Out
   nameCount : σ → Nat
   /-- the live objects below a root, preorder: (path, family, isMutable) of every non-sequence object -/
   targets : σ → Nat → List (List Nat × Nat × Bool)
@@ -249,12 +278,12 @@ def storeTargets (s : Store) (r : Nat) : List (List Nat × Nat × Bool) :=
   | some e => walkV D e.isMut [] e.val
 
 def heapMachine : Machine St :=
-  { step := Model.HeapX.stepX, nameCount := fun s => s.names.length, targets := heapTargets }
+  { step := Model.HeapX.stepY, nameCount := fun s => s.names.length, targets := heapTargets }
 
 /-- the plain value store runs the `Spec.ValueSem.Op` part of the catalogue only -/
 def specMachine : Machine Store :=
   { step := fun s op => match op with
-      | .base op => Spec.ValueSem.step s op
+      | .x (.base op) => Spec.ValueSem.step s op
       | _ => (Spec.ValueSem.bind s none, .na),
     nameCount := fun s => s.length, targets := storeTargets }
 
@@ -275,7 +304,7 @@ def xTargets (s : XStore) (r : Nat) : List (List Nat × Nat × Bool) :=
   | some rf => walkR D s.cells [] rf
 
 def xMachine : Machine XStore :=
-  { step := Spec.AliasSem.stepX, nameCount := fun s => s.names.length, targets := xTargets }
+  { step := Spec.AliasSem.stepY, nameCount := fun s => s.names.length, targets := xTargets }
 
 /-! #### one user step with its observations -/
 
@@ -296,10 +325,10 @@ def observeTarget {σ} (m : Machine σ) (u : Nat) (acc : Acc σ) (mi : Nat) (x :
     Acc σ :=
   let (path, fam, isMut) := x
   let t : Target := ⟨mi, path⟩
-  let (s1, oSer) := m.step acc.st (.base (.ser t))
-  let (s2, oHash) := m.step s1 (.base (.getHash t))
-  let (s3, oTxid) := m.step s2 (.base (.txid t))
-  let (s4, oPy) := m.step s3 (.base (.pyHash t))
+  let (s1, oSer) := m.step acc.st (.x (.base (.ser t)))
+  let (s2, oHash) := m.step s1 (.x (.base (.getHash t)))
+  let (s3, oTxid) := m.step s2 (.x (.base (.txid t)))
+  let (s4, oPy) := m.step s3 (.x (.base (.pyHash t)))
   let rb (o : Out) (f : Bytes → String) : String :=
     match o with
     | .bytes r => showRes r f
@@ -312,7 +341,7 @@ def observeTarget {σ} (m : Machine σ) (u : Nat) (acc : Acc σ) (mi : Nat) (x :
     match acc.firstOfFam.lookup fam with
     | none => (s4, "-", acc.firstOfFam ++ [(fam, t)])
     | some t0 =>
-      let (s5, o) := m.step s4 (.base (.eq t t0))
+      let (s5, o) := m.step s4 (.x (.base (.eq t t0)))
       (s5, showOut o, acc.firstOfFam)
   let str := s!"{showPath u path}:{if isMut then "M" else "I"}:{rb oSer (fun b => short (Crypto.sha256 b))}:{rb oHash short}:{rb oTxid short}:{pyOut}:{eqS}"
   { st := s5, firstOfFam := fof, pyClasses := pcs, outStrs := acc.outStrs ++ [str] }
@@ -325,13 +354,13 @@ def observeAll {σ} (m : Machine σ) (s : σ) (tbl : List Nat) : σ × String :=
   -- `==` matrix of the roots
   let pairs := live.flatMap fun (mi, u) => (live.filter fun (_, u') => u < u').map fun (mj, _) => (mi, mj)
   let (s', bits) := pairs.foldl (fun (s, bits) (mi, mj) =>
-      let (s1, o) := m.step s (.base (.eq ⟨mi, []⟩ ⟨mj, []⟩))
+      let (s1, o) := m.step s (.x (.base (.eq ⟨mi, []⟩ ⟨mj, []⟩)))
       (s1, bits ++ (match o with
         | .bool (.ok true) => "1" | .bool (.ok false) => "0" | _ => "e"))) (acc.st, "")
   (s', ",".intercalate acc.outStrs ++ "#" ++ bits)
 
-def extraOut (s : St) (tbl : List Nat) : OpX → String
-  | .base (.sighash r sub i ht) =>
+def extraOut (s : St) (tbl : List Nat) : OpY → String
+  | .x (.base (.sighash r sub i ht)) =>
       match s.root (mapRoot tbl r) with
       | some a =>
         match rawSigHash s.heap a sub i ht with
@@ -342,10 +371,10 @@ def extraOut (s : St) (tbl : List Nat) : OpX → String
 
 def digestStr (s : String) : String := short (Crypto.sha256 s.toUTF8.toList)
 
-def runHistory {σ} (m : Machine σ) (init : σ) (extra : σ → List Nat → OpX → String)
-    (verbose : Bool) (ops : List OpX) : String :=
+def runHistory {σ} (m : Machine σ) (init : σ) (extra : σ → List Nat → OpY → String)
+    (verbose : Bool) (ops : List OpY) : String :=
   let (_, _, outs) := ops.foldl (fun (s, tbl, outs) op =>
-      let op' := renameOpX tbl op
+      let op' := renameOpY tbl op
       let ex := extra s tbl op
       let mi := m.nameCount s
       let (s1, o) := m.step s op'
